@@ -126,4 +126,7 @@ pub struct HyraxProof<G: AffineRepr> {
     pub z_d: G::ScalarField,
     /// Auxiliary random scalar
     pub z_b: G::ScalarField,
+    /// The hiding scalar used to commit to the evaluation (the verifier needs
+    /// it to check that `com_eval` opens to the claimed value)
+    pub r_eval: G::ScalarField,
 }
